@@ -372,12 +372,22 @@ func (w *world) doRender(op M) M {
 			res["dec"] = d
 		}
 	}
+	if w.facets["same"] {
+		res["same"] = w.sameAsReference(op, tg, status, text)
+	}
+	if w.facets["rep"] {
+		res["rep"] = w.repeatCheck(op, tg, status, text)
+	}
 	if status == "ok" {
 		switch tg.kind {
 		case "text":
 			res["lines"] = lexText(text)
 		case "csv":
-			res["bytes"] = latin1(text)
+			if bytesMode {
+				res["bytes"] = latin1(text)
+			} else {
+				res["bytes"] = text
+			}
 		case "html":
 			res["toks"] = lexHTML(text)
 			if tg.wr != nil && tg.wr.gen != nil {
@@ -415,4 +425,132 @@ func sortedKeys(m M) []string {
 	}
 	sort.Strings(ks)
 	return ks
+}
+
+
+// ---- C10: the same content built on a core table and rendered by the format's own wrapper ----
+
+var buildOps = map[string]bool{"headers": true, "rowitems": true, "sep": true, "appendrow": true, "newrow": true,
+	"rowadd": true, "addrow": true, "setprop": true, "mutate": true, "update": true, "rowerr": true, "tblerr": true,
+	"copycell": true, "takecol": true}
+
+func cloneJSON(v interface{}) interface{} {
+	switch x := v.(type) {
+	case map[string]interface{}:
+		m := M{}
+		for k, e := range x {
+			m[k] = cloneJSON(e)
+		}
+		return m
+	case []interface{}:
+		l := make([]interface{}, len(x))
+		for i, e := range x {
+			l[i] = cloneJSON(e)
+		}
+		return l
+	}
+	return v
+}
+
+// referenceOutput rebuilds the content of the scenario's (single) table on a
+// fresh core table and renders it through the format's own Wrap(...).Render().
+func (w *world) referenceOutput(tg renderTarget, h M) (status, text string) {
+	ref := newWorld()
+	ref.facets = map[string]bool{}
+	ref.exec(M{"op": "newtable", "via": "core"})
+	for _, op := range w.history {
+		if buildOps[opStr(op, "op")] {
+			ref.exec(cloneJSON(op).(map[string]interface{}))
+		}
+	}
+	t := ref.table(1)
+	var rt renderTable
+	switch tg.kind {
+	case "text":
+		tt := texttable.Wrap(t)
+		src := tg.probe
+		if tg.wr != nil {
+			src = tg.wr.rt
+		}
+		if st, ok := src.(*texttable.TextTable); ok {
+			// same decoration as the wrapper under test (copied field by field)
+			dv := reflect.ValueOf(st).Elem().FieldByName("decor")
+			var d decoration.Decoration
+			nv := reflect.ValueOf(&d).Elem()
+			for _, f := range decorFields {
+				nv.FieldByName(f).SetString(dv.FieldByName(f).String())
+			}
+			if dv.FieldByName("isBoxless").Bool() {
+				d = decoration.NoBox()
+			}
+			tt.SetDecoration(d)
+		}
+		rt = tt
+	case "csv":
+		rt = csv.Wrap(t)
+	case "json":
+		rt = tjson.Wrap(t)
+	case "md":
+		rt = markdown.Wrap(t)
+	case "html":
+		ht := html.Wrap(t)
+		if tg.wr != nil {
+			if src, ok := tg.wr.rt.(*html.HTMLTable); ok {
+				ht.Id, ht.Class, ht.Caption = src.Id, src.Class, src.Caption
+			}
+			if tg.wr.gen != nil {
+				g := &genRec{vals: tg.wr.gen.vals}
+				ht.SetRowClassGenerator(func(rowNum int, ctx interface{}) template.HTMLAttr {
+					gr := ctx.(*genRec)
+					if len(gr.vals) == 0 {
+						return ""
+					}
+					return template.HTMLAttr(gr.vals[rowNum%len(gr.vals)])
+				}, g)
+			}
+		}
+		rt = ht
+	default:
+		derr("referenceOutput: kind %q", tg.kind)
+	}
+	return callRender(renderTarget{kind: tg.kind, render: rt.Render, renderTo: rt.RenderTo}, "Render")
+}
+
+func (w *world) sameAsReference(op M, tg renderTarget, status, text string) M {
+	rs, rtxt := w.referenceOutput(tg, nil)
+	if status == "error" {
+		text = "" // what a failing RenderTo wrote is not compared
+	}
+	if rs == "error" {
+		rtxt = ""
+	}
+	return M{"match": b2i(rs == status && rtxt == text), "refstatus": rs, "reflen": len(rtxt), "len": len(text)}
+}
+
+// ---- C14: the same bytes as the first time -------------------------------------------------------
+
+func (w *world) repeatCheck(op M, tg renderTarget, status, text string) M {
+	key := fmt.Sprintf("%d|%s", w.version, tg.kind)
+	src := tg.probe
+	if tg.wr != nil {
+		src = tg.wr.rt
+		if ht, ok := src.(*html.HTMLTable); ok {
+			key += fmt.Sprintf("|%q|%q|%q", ht.Id, ht.Class, ht.Caption)
+			if tg.wr.gen != nil {
+				key += fmt.Sprintf("|%q", tg.wr.gen.vals)
+			}
+		}
+	}
+	if d := decorOfWrapper(src); d != nil {
+		key += fmt.Sprintf("|%v", d)
+	}
+	val := status + "\x00" + text
+	if status == "error" {
+		val = status
+	}
+	if prev, ok := w.first[key]; ok {
+		return M{"seen": 1, "equal": b2i(prev == val)}
+	}
+	w.first[key] = val
+	return M{"seen": 0, "equal": 1}
 }
